@@ -27,7 +27,9 @@ LEAVES = {"allowed": ("collections", "OrderedDict"), "nonstd": ("vp_sink", "hit"
           # a non-listed member of a module that has other allow-listed members
           "unlisted-member-of-listed-module": ("collections", "Counter"),
           # only resolved, never called: fickling's static analysis rates this LIKELY_SAFE, the allowlist does not list it
-          "benign-unlisted-import-only": ("decimal", "Decimal", "IMPORT")}
+          "benign-unlisted-import-only": ("decimal", "Decimal", "IMPORT"),
+          # allow-listed, but its package is not installed in this image: the load fails inside the allowed resolution
+          "allowlisted-absent": ("transformers.training_args", "TrainingArguments", "IMPORT")}
 ADDITIONS = {"none": (), "loads": ("pickle.loads", "_pickle.loads"), "sink": ("vp_sink.hit",),
              "all": ("pickle.loads", "_pickle.loads", "vp_sink.hit")}
 ENTRIES = ("pickle.load", "pickle.loads", "_pickle.load", "_pickle.loads",
@@ -36,6 +38,9 @@ ENTRIES = ("pickle.load", "pickle.loads", "_pickle.load", "_pickle.loads",
            # fickling's static-analysis hook layered on top of the active ML environment (global hook / context manager)
            "pickle.load+always_check_safety", "pickle.load+context")
 LAYERED = ("pickle.load+always_check_safety", "pickle.load+context")
+
+
+_FOLLOW_UP = asm(("GLOBAL", ("vp_sink", "hit")), "EMPTY_TUPLE", "REDUCE", "STOP")
 
 
 def restore():
@@ -211,9 +216,18 @@ def _tree(item):
         hook.activate_safe_ml_environment(also_allow=list(adds) or None)
         try:
             how, val, log, fc = observed(lambda: run_entry(entry, data))
+            # whatever that load did (returned, was refused, failed half way): the environment is still active, so a
+            # following load of a non-listed global is refused
+            fhow, fval, flog, ffc = observed(lambda: pickle.loads(_FOLLOW_UP))
         finally:
             hook.remove_hook()
             restore()
+        if ("vp_sink", "hit") not in allowed and (flog or ("vp_sink", "hit") in ffc or fhow != "raised"):
+            out.violate(PROP, f"C07|follow-up-load-unmediated|after-{how}", f"tree {shape} leaf {leaf} via {entry} additions {aname}: after this load "
+                        f"({how}{' ' + type(val).__name__ if how == 'raised' else ''}) a following pickle.loads of vp_sink.hit {fhow} "
+                        f"(resolved {ffc}, sink calls {len(flog)})",
+                        {"engine": "E3", "tree": [list(t) for t in tree], "leaf": leaf, "entry": entry, "additions": list(adds), "bytes": data}, len(tree))
+            continue
         st.inc("protected_loads")
         rp = {"engine": "E3", "tree": [list(t) for t in tree], "leaf": leaf, "entry": entry, "additions": list(adds), "bytes": data}
         size = len(tree)
